@@ -19,9 +19,11 @@ type BoolFact struct {
 	Raw  EdgeFact
 }
 
-func boolFactsAt(in ssa.Instruction) []BoolFact {
+func boolFactsAt(in ssa.Instruction) []BoolFact { return boolFactsOf(factsAt(in)) }
+
+func boolFactsOf(facts []EdgeFact) []BoolFact {
 	var out []BoolFact
-	for _, f := range factsAt(in) {
+	for _, f := range facts {
 		v := origin(f.Cond)
 		pol := f.True
 		// look through NOT after origin resolution as well
@@ -234,6 +236,26 @@ func nonNilErrorPhiAware(v ssa.Value, at ssa.Instruction) (bool, string) {
 			}
 		}
 		return true, "every incoming value is non-nil"
+	}
+	// result of a private helper: every value it can return, under the facts at that return
+	if cases := valueCases(v, 0); len(cases) > 1 || (len(cases) == 1 && cases[0].Val != v) {
+		for _, vc := range cases {
+			if ok, _ := nonNilError(vc.Val, nil, 0); ok {
+				continue
+			}
+			guarded := false
+			for _, f := range vc.Facts {
+				if x, op, y, ok2 := cmpFact(f); ok2 && op == token.NEQ {
+					if (origin(x) == origin(vc.Val) && isNilConst(y)) || (origin(y) == origin(vc.Val) && isNilConst(x)) {
+						guarded = true
+					}
+				}
+			}
+			if !guarded {
+				return false, "the helper can return " + desc(vc.Val) + ", which is not provably non-nil"
+			}
+		}
+		return true, "every value the helper returns is non-nil"
 	}
 	return nonNilError(v, at, 0)
 }
